@@ -284,29 +284,7 @@ func checkC08(c *Ctx) {
 
 	// ---- C08.4 activation
 	r.Rule("C08.4", "markActive flips the record found under the C08.1 key to used; the connection handler calls MarkActive on match", 2)
-	if f := c.fn("C08.4", "pkg/station/lib", "RegisteredDecoys", "markActive"); f != nil {
-		usedVal := constIntOf(c.P, repoMod+"/pkg/station/lib", "regStatusUsed")
-		n := 0
-		for _, st := range fieldStores(f, "lib.DecoyTimeout", "status") {
-			n++
-			cv, isC := constOf(st.Val)
-			base := st.Addr.(*ssa.FieldAddr).X
-			fromLookup := false
-			if ex, ok := base.(*ssa.Extract); ok {
-				if lk, ok := ex.Tuple.(*ssa.Lookup); ok && strings.HasSuffix(pathOf(lk.X), ".decoysTimeouts") {
-					fromLookup = true
-				}
-			}
-			if lk, ok := base.(*ssa.Lookup); ok && strings.HasSuffix(pathOf(lk.X), ".decoysTimeouts") {
-				fromLookup = true
-			}
-			r.Check(isC && cv.ExactString() == usedVal && fromLookup, "C08.4", "markActive: status = regStatusUsed on the looked-up record", st.Pos(), fnName(f), "store of "+usedVal+" into "+firstN(pathOf(st.Addr), 100),
-				"activation does not store `used` into the record found in the timeout map: an active registration is expired after 10 minutes")
-		}
-		if n == 0 {
-			r.Bad("C08.4", "markActive: no store to DecoyTimeout.status", f.Pos(), fnName(f), "activation never flips the record: every registration expires after 10 minutes even while carrying connections")
-		}
-	}
+	checkMarkOwnRecord(c, "C08.4")
 	if f := c.fn("C08.4", "cmd/application", "connManager", "handleNewTCPConn"); f != nil {
 		calls := callsIn(f, shortIs("MarkActive"))
 		r.Check(len(calls) >= 1, "C08.4", "handleNewTCPConn: calls MarkActive", f.Pos(), fnName(f), fmt.Sprintf("%d call(s)", len(calls)), "a matched connection no longer marks its registration used")
@@ -710,6 +688,73 @@ func checkLiveLookup(c *Ctx, rule, why string) {
 		})
 		if n == 0 {
 			r.Unk(rule, "getRegistrations: returns", f.Pos(), fnName(f), "no return found")
+		}
+	}
+}
+
+// checkMarkOwnRecord (C08.4, C02.14): activation stores `used` into the timeout record found under the matched
+// registration's own (phantom, identifier) key - and into no other record.
+func checkMarkOwnRecord(c *Ctx, rule string) {
+	r := c.R
+	if f := c.fn(rule, "pkg/station/lib", "RegisteredDecoys", "markActive"); f != nil {
+		usedVal := constIntOf(c.P, repoMod+"/pkg/station/lib", "regStatusUsed")
+		n := 0
+		for _, st := range fieldStores(f, "lib.DecoyTimeout", "status") {
+			n++
+			cv, isC := constOf(st.Val)
+			base := st.Addr.(*ssa.FieldAddr).X
+			fromLookup := false
+			if ex, ok := base.(*ssa.Extract); ok {
+				if lk, ok := ex.Tuple.(*ssa.Lookup); ok && strings.HasSuffix(pathOf(lk.X), ".decoysTimeouts") {
+					fromLookup = true
+				}
+			}
+			if lk, ok := base.(*ssa.Lookup); ok && strings.HasSuffix(pathOf(lk.X), ".decoysTimeouts") {
+				fromLookup = true
+			}
+			// ... under the key of the registration that was matched: its own phantom and its own identifier (a match on
+			// one phantom says nothing about the session's registrations on other phantoms)
+			ownKey := false
+			if fromLookup && len(f.Params) >= 2 {
+				var lk *ssa.Lookup
+				if ex, ok := base.(*ssa.Extract); ok {
+					lk, _ = ex.Tuple.(*ssa.Lookup)
+				} else {
+					lk, _ = base.(*ssa.Lookup)
+				}
+				d := f.Params[len(f.Params)-1]
+				hasPh, hasID := false, false
+				eachInstr(f, func(in ssa.Instruction) {
+					call, ok := in.(*ssa.Call)
+					if !ok || lk == nil {
+						return
+					}
+					if calleeName(&call.Call) == "(net.IP).String" && pathOf(call.Call.Args[0]) == pname(d)+".PhantomIp" && (ssa.Value(call) == lk.Index || dependsOn(lk.Index, call)) {
+						hasPh = true
+					}
+					if call.Call.IsInvoke() && call.Call.Method.Name() == "GetIdentifier" && len(call.Call.Args) == 1 && stripConv(call.Call.Args[0]) == ssa.Value(d) && (ssa.Value(call) == lk.Index || dependsOn(lk.Index, call)) {
+						hasID = true
+					}
+				})
+				ownKey = hasPh && hasID
+			}
+			r.Check(isC && cv.ExactString() == usedVal && fromLookup && ownKey, rule, "markActive: status = regStatusUsed on the looked-up record", st.Pos(), fnName(f), "store of "+usedVal+" into "+firstN(pathOf(st.Addr), 100)+" (key built from the matched registration's phantom and identifier)",
+				"activation stores `used` into a record that is not the one found under the matched registration's own (phantom, identifier) key: an active registration is expired after 10 minutes, or a registration that never carried a connection is kept (and keeps matching) for 6 hours")
+		}
+		if n == 0 {
+			r.Bad(rule, "markActive: no store to DecoyTimeout.status", f.Pos(), fnName(f), "activation never flips the record: every registration expires after 10 minutes even while carrying connections")
+		}
+	}
+	// no other function of the package flips a record to used
+	usedV := constIntOf(c.P, repoMod+"/pkg/station/lib", "regStatusUsed")
+	for _, g := range c.funcsOfPkgs("pkg/station/lib") {
+		if g.Name() == "markActive" || onlyCalledFrom(g, "markActive", 2) {
+			continue
+		}
+		for _, st := range fieldStores(g, "lib.DecoyTimeout", "status") {
+			if cv, isC := constOf(st.Val); isC && cv.ExactString() == usedV {
+				r.Bad(rule, fnName(g)+": stores regStatusUsed into a timeout record", st.Pos(), fnName(g), "a record is flipped to used outside markActive: a registration that carried no connection is kept (and keeps matching) for the active lifetime")
+			}
 		}
 	}
 }
